@@ -16,6 +16,7 @@ import (
 
 	"verif/enum"
 	"verif/ev"
+	"verif/pre"
 )
 
 const M = ^uint32(0)
@@ -142,7 +143,7 @@ func TestC14Instances(t *testing.T) {
 				if err != nil {
 					panic(err)
 				}
-				r.VerifUpdateRingState(d)
+				pre.Install(r, d, now) // on top of earlier versions of itself (see package pre)
 				rep.State(1)
 				viol := func(kind, what string) {
 					rep.Violate(fmt.Sprintf("inst:%s:%s", kind, a.String()), fmt.Sprintf("ring %s(RF=%d): %s", a.String(), rf, what), map[string]any{"layout": li, "idx": idx})
